@@ -18,6 +18,8 @@ pub enum Ctx {
     Bounded(u32),
     /// explicit zone plus coordinates (sun events computed for the place), no holidays, no lazy table
     TzCoords(String, i32, i32),
+    /// a small caller-made public-holiday calendar (`ContextHolidays::new`), determined by the number
+    Custom(u32),
 }
 
 #[derive(Serialize, Deserialize, Clone, Debug, PartialEq, Eq, PartialOrd, Ord, Hash)]
@@ -46,6 +48,9 @@ pub enum Op {
     HolidayOn { cc: String, date: (i32, u32, u32), school: bool },
     CountryAt(i32, i32),
     TzAt(i32, i32),
+    /// high-cardinality churn: n distinct comments / expressions / caller-made calendars in a row, half of the
+    /// values kept alive, half dropped at once (reaches the eviction / sweep paths of any cache or interner)
+    Churn { kind: u8, seed: u32, n: u32, t: i64 },
     /// create `iter_from(t)`, advance it k steps, send it to another thread
     Send { chan: u32, e: String, c: Ctx, t: i64, k: u32 },
     /// receive an iterator and take n more intervals
@@ -88,6 +93,9 @@ fn gen_ctx(rng: &mut Rng, p: &Pools, coords_ok: bool) -> Ctx {
     }
     if rng.chance(1, 16) {
         return Ctx::Bounded(*rng.pick(&[1, 2, 7, 30, 366]));
+    }
+    if rng.chance(1, 12) {
+        return Ctx::Custom(rng.below(6) as u32);
     }
     match rng.below(if coords_ok { 10 } else { 8 }) {
         0 | 1 | 2 => Ctx::Default,
@@ -141,7 +149,16 @@ fn gen_op(rng: &mut Rng, p: &Pools, coords_ok: bool, n_prebuilt: u32) -> Op {
         2 => Op::Normalize(e),
         3 | 4 => Op::State { e, c, t },
         5 | 6 => Op::NextChange { e, c, t },
-        7 | 8 => Op::Iter { e, c, t, n: rng.range(1, 12) as u32 },
+        // one stream in ten is long (hundreds of intervals: months of day-by-day loading)
+        // (dense expressions only, in plain contexts: a sparse one would scan for centuries)
+        7 | 8 => {
+            if rng.chance(1, 10) && !p.dense_exprs.is_empty() {
+                let c = if rng.chance(1, 2) { Ctx::Default } else { Ctx::Tz(rng.pick(&p.zones).to_string()) };
+                Op::Iter { e: rng.pick(&p.dense_exprs).clone(), c, t, n: rng.range(150, 400) as u32 }
+            } else {
+                Op::Iter { e, c, t, n: rng.range(1, 12) as u32 }
+            }
+        }
         9 => {
             let d = chrono::DateTime::from_timestamp(t, 0).unwrap().date_naive();
             use chrono::Datelike;
@@ -161,6 +178,7 @@ fn gen_op(rng: &mut Rng, p: &Pools, coords_ok: bool, n_prebuilt: u32) -> Op {
                         Ctx::TzCoords(z.clone(), co.0, co.1)
                     }
                     (Ctx::Holidays(_), 0 | 1) => Ctx::Holidays(p.pick_country(rng)),
+                    (Ctx::Custom(_), _) => Ctx::Custom(rng.below(6) as u32),
                     (Ctx::Default, 0) | (Ctx::Bounded(_), 0 | 1) => Ctx::Bounded(*rng.pick(&[1, 2, 7, 30, 366])),
                     (Ctx::Bounded(_), _) => Ctx::Default,
                     (Ctx::Tz(_), 0) => Ctx::Tz(rng.pick(&p.zones).to_string()),
@@ -273,6 +291,16 @@ pub fn generate(rng: &mut Rng, p: &Pools, mode: &str) -> Workload {
             threads[a].insert(pa, o1);
             let pb = rng.usize_below(threads[b].len() + 1);
             threads[b].insert(pb, o2);
+        }
+    }
+    // churn: one workload in six gets 1-3 churn operations of the same kind on different threads
+    if !c10 && rng.chance(1, 6) {
+        let kind = rng.below(3) as u8;
+        let t = *rng.pick(&p.instants);
+        for _ in 0..rng.range(1, 3) {
+            let th = rng.usize_below(n_threads);
+            let pos = rng.usize_below(threads[th].len() + 1);
+            threads[th].insert(pos, Op::Churn { kind, seed: rng.below(4) as u32, n: rng.range(280, 600) as u32, t });
         }
     }
     // bursts on colliding keys: every thread evaluates the same sun-event expression at the same instant for a
